@@ -43,6 +43,9 @@ type caseC13 struct {
 	// Private: frames for the "ReadPacket on a private stream" operation
 	// (taken round-robin); empty = the shared packet's own encoding.
 	Private []Hex `json:"private,omitempty"`
+	// Zero: the packet starts as the zero value of its type (var p mq.PubAck)
+	// instead of the constructor's value.
+	Zero bool `json:"zero,omitempty"`
 }
 
 var c13OpNames = []string{"WriteTo", "String", "Dump", "WellFormed", "Accessors", "ReadPacket(private)", "will.WriteTo", "will.String", "will.Accessors", "Dump(yielding writer)", "WriteTo(yielding writer)", "WriteTo(failing writer)"}
@@ -66,6 +69,8 @@ func checkC13(c caseC13) (sig, msg string) {
 	// the reference bytes come from a twin built the same way, so that the
 	// shared packet is untouched (never encoded, never rendered) when the
 	// goroutines start
+	api.StartFromZero = c.Zero
+	defer func() { api.StartFromZero = false }()
 	twin := api.Build(&m, c.Plan)
 	seq, _, werr := api.Encode(twin)
 	if werr != nil {
@@ -246,6 +251,7 @@ func TestC13(t *testing.T) {
 			}
 		}
 		c.Decoded = rapid.Bool().Draw(t, "decoded")
+		c.Zero = !c.Decoded && rapid.IntRange(0, 3).Draw(t, "zero") == 0
 		allRead := rapid.IntRange(0, 5).Draw(t, "allread") == 0
 		if allRead {
 			// every goroutine (also) reads from its own stream at the same time
@@ -297,7 +303,7 @@ func TestC13(t *testing.T) {
 		if m.Will != nil {
 			class += "/shared-will"
 		}
-		r.Case(vf.FPs(c.ModelGob, fmt.Sprint(c.Ops, c.Decoded, c.Private)), hasWrite && hasOther, class, func() interface{} {
+		r.Case(vf.FPs(c.ModelGob, fmt.Sprint(c.Ops, c.Decoded, c.Private, c.Zero)), hasWrite && hasOther, class, func() interface{} {
 			names := make([][]string, len(c.Ops))
 			for i, ops := range c.Ops {
 				for _, o := range ops {
